@@ -2,5 +2,6 @@ pub mod c01;
 pub mod c05;
 pub mod c06;
 pub mod c10;
+pub mod c12;
 pub mod c13;
 pub mod c19;
